@@ -828,10 +828,23 @@ pub(crate) fn tokens_to_operator_tree<NumericTypes: EvalexprNumericTypes>(
 ) -> EvalexprResult<Node<NumericTypes>, NumericTypes> {
     let mut root_stack = vec![Node::root_node()];
     let mut last_token_is_rightsided_value = false;
+    let mut last_token_is_identifier = false;
     let mut token_iter = tokens.iter().peekable();
 
     while let Some(token) = token_iter.next().cloned() {
         let next = token_iter.peek().cloned();
+
+        // Two operands may only be juxtaposed if the first one is an identifier, i.e. a function application,
+        // and a logical not can never directly follow an operand
+        if last_token_is_rightsided_value
+            && (token == Token::Not || (token.is_leftsided_value() && !last_token_is_identifier))
+        {
+            return Err(if token == Token::LBrace {
+                EvalexprError::MissingOperatorOutsideOfBrace
+            } else {
+                EvalexprError::AppendedToLeafNode
+            });
+        }
 
         let node = match token.clone() {
             Token::Plus => Some(Node::new(Operator::Add)),
@@ -976,6 +989,7 @@ pub(crate) fn tokens_to_operator_tree<NumericTypes: EvalexprNumericTypes>(
         }
 
         last_token_is_rightsided_value = token.is_rightsided_value();
+        last_token_is_identifier = matches!(token, Token::Identifier(_));
     }
 
     // In the end, all sequences are implicitly terminated
